@@ -268,10 +268,18 @@ def run_live(ctx, cfg, script=None, record=True):
     lc = ctx.lean()
     rng = ctx.rng
     # HandshakeSettings.padding_cb is what an application sets; it has to reach RecordLayer.padding_cb
-    L = R.connect(dict(cfg, padding_cbs=(T.pad_cb(cfg["pads"][0]), T.pad_cb(cfg["pads"][1]))))
     label = "%d.%d/%s/etm=%s/rsl=%s/users=%s/pads=%s" % (cfg["ver"][0], cfg["ver"][1], cfg["cipher"], cfg["etm"],
                                                         cfg["rsl"], cfg["users"], cfg["pads"])
+    L = R.connect(dict(cfg, padding_cbs=(T.pad_cb(cfg["pads"][0]), T.pad_cb(cfg["pads"][1]))))
     if L.client.state != "done" or L.server.state != "done":
+        # an honest peer's record rejected by the record layer during the handshake is this property's business
+        from tlslite.errors import TLSLocalAlert
+        for who in ("client", "server"):
+            e = L.end(who).exc
+            if isinstance(e, TLSLocalAlert) and e.description in (20, 21, 22):
+                ctx.violation("c01:handshake-record-rejected", "%s rejected a record of its honest peer during the handshake "
+                              "with %s [%s]" % (who, R.ALERTS.get(e.description), label),
+                              dict(stage="live", cfg=jcfg(cfg), script=[], detail="handshake"))
         ctx.count("live:handshake-not-negotiable")
         # identical settings on both sides with an RSA/ECDSA certificate must connect unless the suite
         # does not exist for this version; that is C19/C03 territory: counted, not judged here
